@@ -236,6 +236,11 @@ def _render_bindings(
             except ValueError:
                 rendered.append(value.rebuild(indent=indent, inline=inline))
                 continue
+            if not expanded:
+                # An attrpath root without leaves cannot be written in attrpath
+                # form; keep the (empty) attribute visible instead of dropping it.
+                rendered.append(value.rebuild(indent=indent, inline=inline))
+                continue
             for item in expanded:
                 rendered.append(item.rebuild(indent=indent, inline=inline))
             continue
